@@ -42,7 +42,7 @@ def result_prop(sweep, rule, expl, extra_tb=(), nontrivial=nt_parallel, cmp=RESU
 
 PROPS = {
     "C12": {
-        "modes": [["sweep", "C12", "{seed}", "{tier}"]],
+        "modes": [["sweep", "C12", "{seed}", "{tier}"], ["taskset=0", "sweep", "C12", "{seed}9", "quick"]],
         "compare": ("params",),
         "nontrivial": nt_all,
         "rule": "exhaustive: each of the 117 chains (all 85 of <=3 transformations, i.e. all 32 (type,transformation) sites, plus every 8th chain of depth 4) x one setter out of 16 (usize 0/1/7/2^20/2^20+1, enum Auto/Max/Min/Exact incl. Min(2^40), Exact(2^32+5), Max(2^40)) at every position; plus random 2-4 setters; params() and is_sequential() are read after the source and after EVERY call and compared with the model's Par.build prefix by prefix; distinct = distinct case text",
@@ -52,7 +52,7 @@ PROPS = {
         "exhaustive": True,
     },
     "C15": {
-        "modes": [["l0", "{seed}", "{tier}"], ["sweep", "C15", "{seed}", "{tier}"], ["taskset=0-2", "sweep", "C15", "{seed}7", "{tier}"], ["taskset=0", "sweep", "C15", "{seed}9", "quick"]],
+        "modes": [["l0", "{seed}", "{tier}"], ["sweep", "C15", "{seed}", "{tier}"], ["taskset=0-2", "sweep", "C15", "{seed}7", "{tier}"], ["taskset=0", "sweep", "C15", "{seed}9", "quick"], ["sources", "{seed}", "C15"]],
         "compare": ("pred", "spec", "stream"),
         "l0_functions": None,
         "l0_nontrivial": ("chunksize", "numthreads", "runner", "nextchunk", "divceil"),
@@ -63,7 +63,7 @@ PROPS = {
         "assumptions": ASSUME_COMMON,
     },
     "C11": {
-        "modes": [["l0", "{seed}", "{tier}"], ["sweep", "C11", "{seed}", "{tier}"]],
+        "modes": [["l0", "{seed}", "{tier}"], ["sweep", "C11", "{seed}", "{tier}"], ["taskset=0", "sweep", "C11", "{seed}9", "quick"], ["taskset=0-2", "sweep", "C11", "{seed}7", "quick"]],
         "compare": ("pred", "spec", "acc", "stream"),
         "l0_functions": ("chunksize", "runner", "nextchunk", "dospawn", "ofnat_cs", "spawn"),
         "l0_nontrivial": ("chunksize", "runner", "nextchunk", "spawn"),
@@ -74,7 +74,7 @@ PROPS = {
         "assumptions": ASSUME_COMMON,
     },
     "C08": {
-        "modes": [["l0", "{seed}", "{tier}"], ["sweep", "C08", "{seed}", "{tier}"], ["taskset=0-2", "sweep", "C08", "{seed}7", "quick"]],
+        "modes": [["l0", "{seed}", "{tier}"], ["sweep", "C08", "{seed}", "{tier}"], ["taskset=0-2", "sweep", "C08", "{seed}7", "quick"], ["sources", "{seed}", "C08"]],
         "compare": ("pred", "spec", "acc", "stream"),
         "l0_functions": ("numthreads", "runner", "dospawn", "ofnat_nt", "spawn"),
         "l0_nontrivial": ("numthreads", "runner", "dospawn", "spawn"),
@@ -125,7 +125,7 @@ PROPS = {
         extra_tb=["std::thread::scope / JoinHandle::join re-raise worker panics: assumed, observed on every case"],
         nontrivial=nt_len2),
     "C16": {
-        "modes": [["sweep", "C16", "{seed}", "{tier}"]],
+        "modes": [["sweep", "C16", "{seed}", "{tier}"], ["taskset=0", "sweep", "C16", "{seed}9", "quick"]],
         "compare": ("eff", "params", "pred", "spec"),
         "nontrivial": nt_all,
         "rule": "every one of the 117 chains (all 85 of <=3 transformations = all 32 sites, plus 32 of depth 4) on a 50-element and a 4-element source, with and without setters at random positions, Vec / exact / unknown-length sources; closure-call and source-consumption counters are read after the source conversion and after EVERY call; any non-zero increment before the terminal is attributed to its (type, transformation) site: the 8 listed eager sites print KNOWN-FINDING, anything else is a violation; the model's construction-effect counts are compared call by call",
